@@ -285,6 +285,17 @@ func c15UseConstructors(x uint64) {
 	of.NewRegMatchField(int(x%16), uint32(x), of.NewNXRange(0, 15))
 	of.NewMatchField("NXM_NX_REG"+fmt.Sprint(x%16), uint32(x&0xff), 4, 8)
 	of.NewMatchField("NXM_NX_XXREG"+fmt.Sprint(x%4), uint64(x), 64, 64)
+	// a switch's answer about its tunnel-metadata mapping passes through the decoder while lookups go on:
+	// what a switch has mapped is its business, the registry keeps describing the fields
+	r := &of.TLVTableReply{MaxSpace: 256, MaxFields: 64}
+	for i := 0; i < 3; i++ {
+		r.TlvMaps = append(r.TlvMaps, &of.TLVTableMap{OptClass: 0x0102, OptType: uint8(x >> 8), OptLength: uint8(4 + 4*((x>>uint(i))%30)), Index: uint16((x + uint64(i)) % 8)})
+	}
+	m := of.NewNXTVendorHeader(of.Type_TlvTableReply)
+	m.VendorData = r
+	if b, err := m.MarshalBinary(); err == nil {
+		of.Parse(b)
+	}
 }
 
 func TestC15Words(t *testing.T) {
